@@ -48,6 +48,17 @@ def step (w : W) (ws : List String) : W × String :=
         let s := Aggkit.ReorgSync.step w.s (.stepB n)
         ({ w with s := s }, s!"store={lst s.b.store} tracked={lst s.b.tracked}")
     | none => (w, "bad-op")
+  -- `step!`: the first attempt(s) at the next block meet a transient storage error; `handleNewBlock` retries until the block
+  -- is stored, so the outcome is that of `step`
+  | ["step!", id, n] => match n.toNat? with
+    | some n =>
+      if id = "A" then
+        let s := Aggkit.ReorgSync.step w.s (.stepA n)
+        ({ w with s := s }, s!"store={lst s.a.store} tracked={lst s.a.tracked}")
+      else
+        let s := Aggkit.ReorgSync.step w.s (.stepB n)
+        ({ w with s := s }, s!"store={lst s.b.store} tracked={lst s.b.tracked}")
+    | none => (w, "bad-op")
   | ["detect"] => detectOut w
   | ["detect!"] =>
     let s := Aggkit.ReorgSync.step w.s .detectCrash
